@@ -13,7 +13,7 @@ CHECKS = {
                      "over-limit polygons re-loaded as plain elements covering the same region (exact winding samples), later "
                      "cycles idempotent. Sampled exploration with shrinking.",
                 note="Trusted: pbt/gdsmodel.py, pbt/geomkit.py. Centre lines/outlines of paths are taken from gdstk (transport "
-                     "only; C07/C08 judge them). Arrays with off-grid lattices are compared with 1 grid unit tolerance.",
+                     "only; C07/C08 judge them). Arrays with off-grid lattices are compared with the AREF corner-rounding bound (at most 1.5 grid units at the far corner).",
                 technique="property-based testing (Hypothesis) of a save/load round trip against a reference model"),
     "C02": dict(level="exploration", design="4 C02",
                 text="Generated libraries in the OASIS domain (32-bit tags, detector-relevant shapes, circles at the detection "
